@@ -44,6 +44,12 @@ class LBCheck(BaseCheck):
       TupleEndpoint = namedtuple('Endpoint', 'host port')
       pool = [TupleEndpoint('m%02d' % i, 7000 + i) for i in range(16)]
       classes.add('tuple-endpoints')
+    if rng.random() < 0.3:
+      # endpoints that look alike and are different members all the same: host names that differ
+      # only in letter case, the same host on another port
+      E_ = type(pool[0])
+      pool = pool + [E_('M%02d' % i, 7000 + i) for i in range(4)] + [E_('m%02d' % i, 7100 + i) for i in range(2)]
+      classes.add('look-alike-endpoints')
     n0 = rng.choice([0, 1, 1, 2, 3, 3, 4, 5, 6, 8, 12])
     lb_params = {}
     if kind == 'aperture':
@@ -130,6 +136,16 @@ class LBCheck(BaseCheck):
         elif not (len(d) == 1 and isinstance(d[0][2].error, NoMembersError)):
           violate('dispatch:no-members-error', 'empty balancer did not fail the request at once with '
                   'NoMembersError: %r' % ([repr(x[2].error) for x in d],), {})
+        elif ss.truth and opened[0] and not (ss.pending or ss.loading or ss.closed) and not w.callback_errors:
+          # (not judged once an injected Close() error has escaped from a notification: the tree skips
+          # the replacement of the departing member then, which the statements do not cover)
+          # every notification has been delivered and the server set is not empty: the balancer has
+          # members, it just is not using any of them
+          violate('dispatch:no-members-error-with-members', 'request %d failed with NoMembersError although the server set '
+                  'has %d member(s) (none of them in use by the balancer)' % (req['id'], len(ss.truth)),
+                  {'idle_known': len(getattr(lb, '_idle_endpoints', ()))},
+                  {'logs': [l[2][:200] for l in env.logs[-6:]], 'heap': heap_dump(), 'pending': sorted(map(str, getattr(lb, '_pending_endpoints', ()))), 'callback_errors': w.callback_errors[-3:],
+                   'idle': sorted(map(str, getattr(lb, '_idle_endpoints', ()))), 'events': [dict((k, v) for k, v in e.items() if k not in ('seq', 'vt')) for e in env.events[-14:]]})
         else:
           stats['no_member_dispatches'] += 1
           classes.add('no-members')
